@@ -88,6 +88,7 @@ class Graph:
         self.term = {}         # node -> terminal descriptor dict
         self.entry = None
         self.notes = []        # engine notes (unmodelled things)
+        self.fd = {}           # node -> frozenset of descriptor-opening roots live in locals
 
     def node(self):
         i = self.n
@@ -117,6 +118,8 @@ class Interp:
         self.arith_precise = False
         self.opaque = set()       # local bodies treated as uninterpreted pure functions
         self.summarise_traits = set()   # local traits whose dyn calls are kept as abstract operations
+        self.track_fd = False
+        self._fdw = {}
 
     # ------------------------------------------------------------------ run
 
@@ -235,6 +238,86 @@ class Interp:
         body['_live'] = lv
         return lv
 
+    FD_ADTS = {'std::fs::File', 'std::fs::ReadDir', 'std::fs::DirEntry', 'tempfile::NamedTempFile',
+               'tempfile::SpooledTempFile', 'std::os::fd::OwnedFd', 'std::io::BufReader', 'std::io::BufWriter'}
+
+    def fd_weight(self, tyid, depth=0):
+        w = self._fdw.get(tyid)
+        if w is not None:
+            return w
+        t = self.T[tyid]
+        self._fdw[tyid] = 0
+        k = t['k']
+        w = 0
+        if depth > 12:
+            w = 0
+        elif k == 'adt':
+            if t['adt'] in self.FD_ADTS:
+                w = 1
+            elif t.get('local') and t.get('variants'):
+                for v in t['variants']:
+                    w = max(w, sum(self.fd_weight(f['ty'], depth + 1) for f in v['fields'] if 'ty' in f))
+            else:
+                w = sum(self.fd_weight(a, depth + 1) for a in t.get('targs', []))
+        elif k == 'tuple':
+            w = sum(self.fd_weight(e, depth + 1) for e in t['elems'])
+        elif k in ('array', 'slice'):
+            w = self.fd_weight(t['elem'], depth + 1)
+        elif k == 'closure':
+            w = self.fd_weight(t['upvars'], depth + 1)
+        self._fdw[tyid] = w
+        return w
+
+    OPENERS = ('open_ro', 'open_rw', 'list_dir', 'temp_create_named', 'temp_create_anon', 'temp_create_named_default',
+               'ns_create_file', 'fd_dup')
+
+    def fd_roots(self, v):
+        """Descriptor-opening calls a value may own: walk the term, stopping at opener
+        applications (their own arguments are paths, not owned descriptors)."""
+        import prims
+        from values import children
+        out = set()
+        seen = set()
+        work = [v]
+        while work:
+            s = work.pop()
+            if s in seen:
+                continue
+            seen.add(s)
+            t = VAL[s]
+            if t[0] == 'sym' and t[1] == 'app':
+                p = t[2]
+                if prims.classify(p)[0] in self.OPENERS or p.startswith('trait::'):
+                    out.add(s)
+                    continue
+            work.extend(children(t))
+        return out
+
+    def live_fd_roots(self, st):
+        roots = set()
+        for f in st.frames:
+            decls = f.body['locals']
+            for l, v in f.locals.items():
+                if l < len(decls) and self.fd_weight(decls[l]['ty']) > 0:
+                    t = VAL[v]
+                    if t[0] == 'sym':
+                        var = st.facts.get(('var', v))
+                        adt = self.T[decls[l]['ty']].get('adt')
+                        if var is not None and ((adt == 'std::result::Result' and var == 1) or
+                                                (adt == 'std::option::Option' and var == 0)):
+                            continue   # known Err / None: holds no descriptor
+                    r = self.fd_roots(v)
+                    if r:
+                        roots |= r
+                    elif t[0] == 'sym':
+                        # a descriptor of unknown origin: a File parameter or one produced by a user callback
+                        top = v
+                        while VAL[top][0] == 'sym' and VAL[top][1] in ('vf', 'fld', 'mut'):
+                            top = VAL[top][2]
+                        if VAL[top][0] == 'sym' and VAL[top][1] in ('param', 'cb'):
+                            roots.add(top)
+        return frozenset(roots)
+
     def prune_dead(self, st):
         fr = st.frames[-1]
         live_in, addr_taken = self.liveness(fr.body)
@@ -257,6 +340,8 @@ class Interp:
             n = self.G.node()
             self.seen[k] = n
             self.work.append((st, n))
+            if self.track_fd:
+                self.G.fd[n] = self.live_fd_roots(st)
         if from_node is not None:
             self.G.edge(from_node, n, ev)
         return n
